@@ -17,6 +17,10 @@ GROUPS = [
     P('poly_scale', 'scale', 'h_poly_scale', replace_extern=[]),
     P('poly_rotate', 'rotate', 'h_poly_rotate'),
     P('poly_transform', 'transform', 'h_poly_transform'),
+    P('label_transform', 'transform', 'h_label_transform', tu='src/label.cpp', roots=['gdstk::Label::transform'],
+      enforce='Label__transform', bound='loop-free: all doubles, both reflection states'),
+    P('reference_transform', 'transform', 'h_reference_transform', tu='src/reference.cpp', roots=['gdstk::Reference::transform'],
+      enforce='Reference__transform', bound='loop-free: all doubles, both reflection states'),
 ]
 TRUSTED_BASE = ['clang 14 AST', 'tools/cxx2c.py lowering', 'cbmc 6.11.0 (dfcc + SAT)', 'side-car contracts; spec/geom_spec.h']
 ASSUMPTIONS = ['cos and sin and the double operations + - * are uninterpreted functions (sound over-approximation: what holds for arbitrary functions holds for IEEE arithmetic)',
